@@ -191,10 +191,12 @@ class P(Prop):
         (M, "TV.C13.fixed_padded_roundtrip", "float() of the unstripped \"{:w.df}\" text (GPX attributes) is the printed decimal"),
         (M, "TV.C13.columns_roundtrip", "ids a bijection onto 0..k-1 => __printInOrder writes the datum with id j in column j (then the features) and the reader's fields[id_X] finds X"),
         (M, "TV.C13.validIds_iff", "the valid id assignments are exactly the 2+6+6+24 permutation layouts"),
-        (M, "TV.C13.row_roundtrip", "a data line written by writeToFile (any valid layout, any feature columns, separator not a number character, lossless time format avoiding the separator) is read back by __readFromCsv as the same observation"),
+        (M, "TV.C13.row_roundtrip", "a data line written by writeToFile (any valid layout, any feature columns of int / float / str / nan values whose text is one field, separator not a number character, lossless time format avoiding the separator) is read back by __readFromCsv as the same observation"),
         (M, "TV.C13.csv_file_roundtrip", "whole file: writeToFile(h) - data lines, preceded for h>0 by the three comment lines #srid/#ref point/#column names - then readFromCsv(h=hr) returns the same observations in the same order for every hr up to the number of header lines written (0 for h=0, else 3)"),
         (M, "TV.C13.csv_file_roundtrip_matching", "the matching call: written with the flag h in {0,1} and read with h=h, every observation comes back"),
         (M, "TV.C13.csv_header_block_roundtrip", "reader side of the header option: `header` first lines of any content, comment lines, then the data lines are read as exactly the observations"),
+        (M, "TV.C13.csv_read_all_roundtrip", "feature columns: a file written with its header block and af_names, values of any kind (int, float, str, nan, inf), is read back by readFromCsv(h=0|1|2, read_all=True) as the same observations, the same feature names in order, and per observation the values expAF(name, value)"),
+        (M, "TV.C13.read_all_values", "what expAF is: int -> the same number, float n/10^d -> the printed decimal (value n/10^d), nan/inf -> themselves, a non-numeric string without quotes -> itself; names ending in & keep the text; ints and floats are always writable as one column"),
         (M, "TV.C13.time_roundtrip", "readTimestamp(str(t)) gives back the fields named by a format of distinct full-width codes, for every stamp that fits the widths"),
         (M, "TV.C13.time_roundtrip_suffix", "the same when text follows the printed stamp (the Z of a GPX <time>)"),
         (M, "TV.C13.time_roundtrip_full", "with the six calendar codes the calendar part is read back identically"),
